@@ -102,7 +102,8 @@ def entry_fields(file, entry_pos, field_delim="\xFF"):
     blocksize = 65535
     file.seek(entry_pos[0])
     entry = file.read(blocksize)
-    entry = entry.lstrip(field_delim) # if there was some slight adjustment error (example: the last ecc block of the last file was the field_delim, then we will start with a field_delim, and thus we need to remove the trailing field_delim which is useless and will make the field detection buggy). This is not really a big problem for the previous file's ecc block: the missing ecc characters (which were mistaken for a field_delim), will just be missing (so we will lose a bit of resiliency for the last block of the previous file, but that's not a huge issue, the correction can still rely on the other characters).
+    while field_delim and entry.startswith(field_delim): entry = entry[len(field_delim):] # strip the delimiter as a whole prefix (lstrip() would strip any leading character that belongs to the delimiter's character set, eating the start of the path)
+    # if there was some slight adjustment error (example: the last ecc block of the last file was the field_delim, then we will start with a field_delim, and thus we need to remove the trailing field_delim which is useless and will make the field detection buggy). This is not really a big problem for the previous file's ecc block: the missing ecc characters (which were mistaken for a field_delim), will just be missing (so we will lose a bit of resiliency for the last block of the previous file, but that's not a huge issue, the correction can still rely on the other characters).
     # TODO: do in a while loop in case the filename is really big (bigger than blocksize) - or in case we add intra-ecc for filename
 
     # Find metadata fields delimiters positions
